@@ -1018,3 +1018,51 @@ func inventedParamNameFamily() []*Program {
 	}
 	return out
 }
+
+// paramLocalCollisionFamily (C02, C14): an injector parameter (plain or variadic) whose name is
+// exactly the local name wire would derive for a provider result needed later, where the two
+// types are mutually ASSIGNABLE (a named slice/map type and its unnamed underlying type), so a
+// generated `hosts, cleanup := NewHosts()` that re-uses the parameter's name still compiles and
+// silently overwrites the argument. Every consumer must still receive its own source.
+func paramLocalCollisionFamily() []*Program {
+	var out []*Program
+	n := 0
+	for _, kind := range []string{"slice", "map"} {
+		for _, variadic := range []bool{false, true} {
+			if variadic && kind != "slice" {
+				continue
+			}
+			for shape := 0; shape < 4; shape++ {
+				for _, pname := range []string{"hosts", "arg", "hosts2"} {
+					for _, namedFirst := range []bool{true, false} {
+						n++
+						b := NewPB(fmt.Sprintf("pl%03d", n), "app")
+						elem := b.Carrier(0, "Elem")
+						var under *Ty
+						if kind == "slice" {
+							under = SliceOf(elem)
+						} else {
+							under = MapOf(Basic("string"), elem)
+						}
+						named := b.NamedOf(0, "Hosts", under, "wrap")
+						cu, er := shape&1 == 1, shape&2 == 2
+						newHosts := b.Func(0, "NewHosts", named, cu, er)
+						pool := b.Carrier(0, "Pool")
+						ps := []*Ty{named, under}
+						if !namedFirst {
+							ps = []*Ty{under, named}
+						}
+						newPool := b.Func(0, "NewPool", pool, false, false, ps...)
+						in := b.Inj("Init", pool, cu, er, []Param{{Name: pname, Ty: under}}, refs(newHosts, newPool)...)
+						in.Variadic = variadic
+						cell := fmt.Sprintf("param-local-collision/%s/variadic=%v/shape=%d/param=%s/named-first=%v", kind, variadic, shape, pname, namedFirst)
+						b.P.Note = cell
+						b.P.Feat = map[string]string{"cell": cell}
+						out = append(out, b.P)
+					}
+				}
+			}
+		}
+	}
+	return out
+}
